@@ -42,7 +42,7 @@ Proof.
 Qed.
 
 (* ---------------------------------------------------------------- update_loop, one document *)
-Lemma no_ttl_with_docs c l : no_ttl c -> no_ttl (with_docs c l).
+Lemma no_ttl_with_docs c l : no_ttl c -> no_ttl (with_docs_w c l).
 Proof. exact (fun H => H). Qed.
 
 Lemma update_loop_single spec upd : forall todo c m md c' m' md',
@@ -50,7 +50,7 @@ Lemma update_loop_single spec upd : forall todo c m md c' m' md',
   (c' = c /\ md' = md /\ ((m' = m /\ Forall (ffalse spec) todo) \/ m' = m + 1))
   \/ (exists pre k d post d',
         todo = pre ++ (k, d) :: post /\ Forall (ffalse spec) pre /\ filter_applies spec d = Ok true
-        /\ py_eq d' d = false /\ c' = with_docs c (store_set k d' (docs c))
+        /\ py_eq d' d = false /\ c' = with_docs_w c (store_set k d' (docs c))
         /\ m' = m + 1 /\ md' = md + 1).
 Proof.
   induction todo as [| [k d] todo IH]; intros c m md c' m' md' HT H; cbn [update_loop] in H.
@@ -63,7 +63,7 @@ Proof.
       * match type of H with context [if negb ?b then _ else _] => destruct (negb b) end;
           [discriminate|].
         destruct (match d with VDoc fs => assoc "_id" fs | _ => None end); [|discriminate].
-        set (c1 := with_docs c (store_set k d' (docs c))) in H.
+        set (c1 := with_docs_w c (store_set k d' (docs c))) in H.
         destruct (ensure_uniques c1 d') as [touched|e].
         -- rewrite (expire_if_no_ttl touched c1 (no_ttl_with_docs c _ HT)) in H. fin H.
            right. exists [], k, d, todo, d'. repeat split; auto.
